@@ -269,3 +269,18 @@ spec fn normals_increasing(rs: Seq<FoundDateTimeKind>) -> bool {
 spec fn entries_below(rs: Seq<FoundDateTimeKind>, b: int) -> bool {
     forall|i: int| 0 <= i < rs.len() ==> entry_key(#[trigger] rs[i]) <= b && (rs[i] is Normal ==> entry_key(rs[i]) < b)
 }
+
+// C06: the date-time an entry contributes as the earliest / latest answer
+spec fn entry_earliest(k: FoundDateTimeKind) -> DateTime {
+    match k {
+        FoundDateTimeKind::Normal(dt) => dt,
+        FoundDateTimeKind::Skipped { before_transition, after_transition } => before_transition,
+    }
+}
+
+spec fn entry_latest(k: FoundDateTimeKind) -> DateTime {
+    match k {
+        FoundDateTimeKind::Normal(dt) => dt,
+        FoundDateTimeKind::Skipped { before_transition, after_transition } => after_transition,
+    }
+}
